@@ -231,8 +231,18 @@ pub fn run(cx: &mut Cx) {
         }
         // registration in every order the API accepts: one shuffled batch / batches in topological order / re-adding a
         // middle template afterwards
-        let mode = r.below(3);
-        let regmode = ["one shuffled batch", "one call per template, ancestors first", "shuffled batch, then a middle template re-added"][mode];
+        // / a middle template first hung under a decoy root and then re-registered under its real parent / the real root
+        // registered last, shadowing a decoy found through a fallback prefix
+        let mode = r.below(5);
+        let regmode = [
+            "one shuffled batch",
+            "one call per template, ancestors first",
+            "shuffled batch, then a middle template re-added",
+            "shuffled batch in which one template extends a decoy root, then that template re-registered under its real parent",
+            "fallback prefix: decoy root under the prefix plus the descendants, then the real root registered last",
+        ][mode];
+        // the decoy defines every block name, so that whatever hangs below it is accepted
+        let decoy: String = format!("DECOY{}", BN.iter().map(|b| format!("{{% block {b} %}}decoy-{b}{{% endblock %}}")).collect::<String>());
         let replay = json!({"templates": srcs, "registration": regmode});
         cx.eval();
         let built = guard(|| {
@@ -246,6 +256,31 @@ pub fn run(cx: &mut Cx) {
                     if res.is_ok() && mode == 2 && len > 1 {
                         let mid = r.below(len);
                         res = t.add_raw_template(&srcs[mid].0, &srcs[mid].1);
+                    }
+                    res
+                }
+                3 if len > 1 => {
+                    let mid = 1 + r.below(len - 1);
+                    let mut first = srcs.clone();
+                    first[mid].1 = first[mid].1.replacen(&format!("{{% extends \"t{}\" %}}", parents[mid]), "{% extends \"decoy\" %}", 1);
+                    first.push(("decoy".to_string(), decoy.clone()));
+                    r.shuffle(&mut first);
+                    let mut res = t.add_raw_templates(first);
+                    if res.is_ok() {
+                        res = t.add_raw_template(&srcs[mid].0, &srcs[mid].1);
+                    }
+                    res
+                }
+                4 if len > 1 => {
+                    let mut res = t.set_fallback_prefixes(vec!["th/".to_string()]);
+                    if res.is_ok() {
+                        let mut first: Vec<(String, String)> = srcs[1..].to_vec();
+                        first.push(("th/t0".to_string(), decoy.clone()));
+                        r.shuffle(&mut first);
+                        res = t.add_raw_templates(first);
+                    }
+                    if res.is_ok() {
+                        res = t.add_raw_template(&srcs[0].0, &srcs[0].1);
                     }
                     res
                 }
@@ -281,6 +316,9 @@ pub fn run(cx: &mut Cx) {
             continue;
         }
         cx.count("chains", 1);
+        if mode >= 3 && len > 1 {
+            cx.count("chains_reparented_after_registration", 1);
+        }
         let defs: Vec<BTreeMap<usize, &Vec<N>>> = chain
             .iter()
             .map(|ns| {
